@@ -382,6 +382,10 @@ class _RawConfigParser(configparser.RawConfigParser):
     except configparser.InterpolationError as e:
       raise ConfigParserException("Problem with place-holder in [{}] '{}': {}".format(section, option, e.message))
 
+  def set_as_read(self, section, option, value):
+    """Store `value` the way a value read from a file is stored (no check of its place-holder syntax)."""
+    self._sections[section][self.optionxform(option)] = value
+
   def optionxform(self, option):
     # Remove all whitespace (as _ConfigParserDict does for its keys) so that the duplicate
     # checks made whilst reading a file see 'A-B' and 'A - B' as the same option.
@@ -438,6 +442,10 @@ class ConfigParser(object):
       # e.g. a spreadsheet, or a text file in an encoding other than the one it was opened with
       raise ConfigParserException("Input is not a valid configuration file, it could not be read as text: {}".format(e))
 
+    # As in the header of a section in the file ('[Pair ]'), blanks around the name of the section are not part of it
+    overrides = [o._replace(section = o.section.strip()) for o in overrides]
+    additional = [o._replace(section = o.section.strip()) for o in additional]
+
     # Process overrides
     for override in overrides:
       if not cp.has_option(override.section, override.key):
@@ -467,12 +475,10 @@ class ConfigParser(object):
     return cp
 
   def _set_item(self, cp, override):
-    try:
-      # As for a value read from the file, blanks around the value are not part of it
-      cp[override.section][override.key] = override.value.strip()
-    except ValueError as e:
-      # configparser refuses a value whose place-holder syntax is wrong (e.g. a lone '$') as it is set
-      raise ConfigParserException("Problem with place-holder in [{}] '{}': {}".format(override.section, override.key, e))
+    # As for a value read from the file: blanks around the value are not part of it, and its place-holders are
+    # looked at when (and if) the item is read. configparser's own set() would refuse a malformed place-holder
+    # (a lone '$') at once, even in an item nothing ever reads.
+    cp.set_as_read(override.section, override.key, override.value.strip())
 
   def _check_for_duplicates(self):
     self._check_for_duplicate_pairs()
